@@ -301,6 +301,8 @@ func handleLine(line string) (ans string) {
 	case "norm", "normraw":
 		// srcmap norm|normraw <goroot hex> <gopath hex> <file hex> <localmap 0|1>
 		return normName(string(unhex(a[2])), string(unhex(a[3])), string(unhex(a[4])), a[5] == "1", a[1] == "normraw")
+	case "fsseq":
+		return fsSeq(a[2])
 	case "rmws":
 		out, msg := compiler.VerifC19RemoveWhitespace(unhex(a[2]), true)
 		if msg != "" {
